@@ -38,3 +38,233 @@ Proof.
     + rewrite E. left. reflexivity.
   - simpl. apply genv_top.
 Qed.
+
+(* ------------------------------------------------------------------ reuse_summary is sound
+   (the re-instantiation of a summary at a callsite through the internal names $0,$1,..: a
+   parallel propagation by construction).  The caller's value must not constrain the internal
+   names (the analyzer forgets them after every callsite) and the summary is over the formal
+   parameters: both are imposed here by a forget / a projection. *)
+Fixpoint assoc_rev (ps : list (var * var)) (k : var) : option var :=
+  match ps with
+  | [] => None
+  | q :: r => if N.eqb (snd q) k then Some (fst q) else assoc_rev r k
+  end.
+
+Lemma assoc_rev_in ps x y : NoDup (map snd ps) -> In (x, y) ps -> assoc_rev ps y = Some x.
+Proof.
+  induction ps as [|[a b] r IH]; simpl; intros ND I; [contradiction|].
+  inversion ND as [|? ? NI ND']; subst. destruct I as [E|I].
+  - inversion E; subst. rewrite N.eqb_refl. reflexivity.
+  - destruct (N.eqb_spec b y) as [->|NE]; auto.
+    exfalso. apply NI. apply (in_map snd) in I. exact I.
+Qed.
+
+Lemma assoc_rev_none ps k : ~ In k (map snd ps) -> assoc_rev ps k = None.
+Proof.
+  induction ps as [|[a b] r IH]; simpl; intros NI; auto.
+  destruct (N.eqb_spec b k) as [->|NE]; [exfalso; apply NI; left; reflexivity|].
+  apply IH. intros I. apply NI. right. exact I.
+Qed.
+
+(* rename_store with old and new names disjoint: new names get the old values, old names the
+   chosen values *)
+Lemma rename_store_spec (tgt : store) ps : forall s,
+  NoDup (map fst ps) ->
+  (forall x y, In x (map fst ps) -> In y (map snd ps) -> x <> y) ->
+  (forall x y, In (x, y) ps -> s x = tgt y) ->
+  forall k, rename_store s ps (map tgt (map fst ps)) k =
+            if vmem k (map fst ps) || vmem k (map snd ps) then tgt k else s k.
+Proof.
+  induction ps as [|[x y] r IH]; intros s ND DJ V k; [reflexivity|].
+  cbn [rename_store map fst snd hd tl].
+  assert (NE : x <> y) by (apply DJ; left; reflexivity).
+  destruct (N.eqb_spec x y) as [E|_]; [contradiction|].
+  inversion ND as [|? ? NI ND']; subst.
+  rewrite IH; auto.
+  - unfold vmem. cbn [existsb]. fold (vmem k (map fst r)). fold (vmem k (map snd r)).
+    destruct (vmem k (map fst r) || vmem k (map snd r)) eqn:M.
+    + apply orb_true_iff in M. destruct M as [M|M]; rewrite M; rewrite ?orb_true_r; reflexivity.
+    + apply orb_false_iff in M. destruct M as [M1 M2]. rewrite M1, M2. rewrite !orb_false_r.
+      unfold upd. destruct (N.eqb_spec k x) as [->|N1]; [reflexivity|].
+      destruct (N.eqb_spec k y) as [->|N2]; cbn [orb]; auto.
+      apply (V x y). left. reflexivity.
+  - intros a b I J. apply DJ; right; auto.
+  - intros a b I. rewrite upd_other.
+    + rewrite upd_other; [apply V; right; exact I|].
+      intros E. subst a. apply (DJ y y).
+      * right. apply (in_map fst) in I. exact I.
+      * left. reflexivity.
+      * reflexivity.
+    + intros E. subst a. apply NI. apply (in_map fst) in I. exact I.
+Qed.
+
+Lemma map_fst_combine {A B} (l1 : list A) (l2 : list B) : length l1 = length l2 -> map fst (combine l1 l2) = l1.
+Proof.
+  revert l2. induction l1 as [|a r IH]; intros [|b l2] L; simpl in *; try discriminate; auto.
+  f_equal. apply IH. lia.
+Qed.
+Lemma map_snd_combine {A B} (l1 : list A) (l2 : list B) : length l1 = length l2 -> map snd (combine l1 l2) = l2.
+Proof.
+  revert l2. induction l1 as [|a r IH]; intros [|b l2] L; simpl in *; try discriminate; auto.
+  f_equal. apply IH. lia.
+Qed.
+
+Lemma in_combine_app_l {A B} (l1 l1' : list A) (l2 l2' : list B) x y :
+  length l1 = length l2 -> In (x, y) (combine l1 l2) -> In (x, y) (combine (l1 ++ l1') (l2 ++ l2')).
+Proof.
+  revert l2. induction l1 as [|a r IH]; intros [|b l2] L I; simpl in *; try discriminate; try contradiction.
+  destruct I as [E|I]; [left; exact E|right; apply IH; [lia|exact I]].
+Qed.
+Lemma in_combine_app_r {A B} (l1 l1' : list A) (l2 l2' : list B) x y :
+  length l1 = length l2 -> In (x, y) (combine l1' l2') -> In (x, y) (combine (l1 ++ l1') (l2 ++ l2')).
+Proof.
+  revert l2. induction l1 as [|a r IH]; intros [|b l2] L I; simpl in *; try discriminate; auto.
+Qed.
+
+(* (o, i) in outs x iouts  ->  some f with (o, f) in outs x fouts and (f, i) in fouts x iouts *)
+Lemma combine_mid {A B C} (l1 : list A) (l2 : list B) (l3 : list C) x z :
+  length l1 = length l2 -> length l2 = length l3 -> In (x, z) (combine l1 l3) ->
+  exists y, In (x, y) (combine l1 l2) /\ In (y, z) (combine l2 l3).
+Proof.
+  revert l2 l3. induction l1 as [|a r IH]; intros [|b l2] [|c l3] L1 L2 I; simpl in *; try discriminate; try contradiction.
+  destruct I as [E|I].
+  - inversion E; subst. exists b. auto.
+  - destruct (IH l2 l3 (eq_add_S _ _ L1) (eq_add_S _ _ L2) I) as (y & J1 & J2). exists y. auto.
+Qed.
+
+Lemma e_project_at_other e vs k s : genv e s -> ~ In k vs -> is_top (e_at (e_project e vs) k) = true.
+Proof.
+  destruct e as [|m]; simpl; [tauto|]. intros _ NI.
+  destruct (forallb (fun k0 => is_top (get m k0)) (keys m)) eqn:T; simpl.
+  - destruct (in_dec N.eq_dec k (keys m)) as [I|NK].
+    + rewrite forallb_forall in T. apply T. exact I.
+    + rewrite get_not_key by exact NK. reflexivity.
+  - induction vs as [|v r IH]; simpl; [reflexivity|].
+    rewrite get_put_other.
+    + apply IH. intros I. apply NI. right. exact I.
+    + intros E. apply NI. left. auto.
+Qed.
+
+Lemma intern_ge voff k : (voff <= intern voff k)%N.
+Proof. unfold intern. lia. Qed.
+
+Lemma nodup_interns voff n : forall i, NoDup (map (intern voff) (seq i n)).
+Proof.
+  induction n as [|n IH]; intros i; simpl; [constructor|]. constructor; auto.
+  intros I. apply in_map_iff in I. destruct I as (j & E & J). apply in_seq in J.
+  unfold intern in E. lia.
+Qed.
+
+Section ReuseSound.
+  Variable voff : N.
+  Variables outs ins fins fouts : list var.
+  Hypothesis ND : NoDup (fins ++ fouts).
+  Hypothesis Lin : length fins = length ins.
+  Hypothesis Lout : length fouts = length outs.
+  Hypothesis NDo : NoDup outs.
+  Hypothesis Bf : forall x, In x (fins ++ fouts) -> (x < voff)%N.
+  Hypothesis Bi : forall x, In x ins -> (x < voff)%N.
+  Hypothesis Bo : forall x, In x outs -> (x < voff)%N.
+
+  Let fs := fins ++ fouts.
+  Let ii := iins voff fins.
+  Let io := iouts voff fins fouts.
+  Let is := ii ++ io.
+
+  Lemma is_seq : is = map (intern voff) (seq 0 (length fins + length fouts)).
+  Proof. unfold is, ii, io, iins, iouts. rewrite <- map_app. rewrite <- seq_app. reflexivity. Qed.
+  Lemma is_nodup : NoDup is.
+  Proof. rewrite is_seq. apply nodup_interns. Qed.
+  Lemma is_ge k : In k is -> (voff <= k)%N.
+  Proof. rewrite is_seq. intros I. apply in_map_iff in I. destruct I as (j & <- & _). apply intern_ge. Qed.
+  Lemma len_ii : length ii = length fins.
+  Proof. unfold ii, iins. rewrite map_length, seq_length. reflexivity. Qed.
+  Lemma len_io : length io = length fouts.
+  Proof. unfold io, iouts. rewrite map_length, seq_length. reflexivity. Qed.
+  Lemma len_is : length fs = length is.
+  Proof. unfold fs, is. rewrite !app_length, len_ii, len_io. reflexivity. Qed.
+
+  Theorem bu_reuse_sound caller sum a s1 b :
+    genv caller a -> genv sum s1 ->
+    (forall f y, In (f, y) (combine fins ins) -> s1 f = a y) ->
+    (forall k, b k = assign_outs a outs fouts s1 k) ->
+    genv (bu_reuse voff outs ins fins fouts (d_forget is caller) (e_project sum fs)) b.
+  Proof.
+    intros G Gs Vin Hb. unfold bu_reuse. fold ii io is fs.
+    set (ps := combine fs is).
+    set (tw := fun k : var => match assoc_rev ps k with Some x => s1 x | None => a k end).
+    assert (MS : map snd ps = is) by (unfold ps; apply map_snd_combine; apply len_is).
+    assert (MF : map fst ps = fs) by (unfold ps; apply map_fst_combine; apply len_is).
+    assert (NDs : NoDup (map snd ps)) by (rewrite MS; apply is_nodup).
+    assert (TWin : forall x y, In (x, y) ps -> tw y = s1 x).
+    { intros x y I. unfold tw. rewrite (assoc_rev_in ps x y NDs I). reflexivity. }
+    assert (TWout : forall k, ~ In k is -> tw k = a k).
+    { intros k NI. unfold tw. rewrite assoc_rev_none; auto. rewrite MS. exact NI. }
+    assert (LOW : forall k, (k < voff)%N -> ~ In k is).
+    { intros k L I. apply is_ge in I. lia. }
+    assert (Fr : forall k, ~ In k outs -> b k = a k).
+    { intros k NI. rewrite Hb. apply assign_outs_other. exact NI. }
+    assert (Vout : forall o f, In (o, f) (combine outs fouts) -> b o = s1 f).
+    { intros o f I. rewrite Hb. apply assign_outs_in; auto. }
+    (* the caller side: the internal inputs receive the actual parameters *)
+    assert (G1 : genv (assign_list (combine ii ins) (d_forget is caller)) tw).
+    { set (a2 := fun k : var => if vmem k is then tw k else a k).
+      assert (Ga2 : genv (d_forget is caller) a2).
+      { apply (d_forget_sound _ _ a); auto. intros k NI. unfold a2. apply vmem_false in NI. rewrite NI. reflexivity. }
+      eapply genv_ext; [apply assign_list_sound; exact Ga2|].
+      intros k. symmetry. rewrite (aseq_spec tw).
+      - destruct (vmem k (map fst (combine ii ins))); auto.
+        unfold a2. destruct (vmem k is) eqn:V; auto. apply vmem_false in V. symmetry. apply TWout. exact V.
+      - intros x y I J. apply in_combine_l in I.
+        apply in_map_iff in J. destruct J as ([x' y'] & E & J). cbn [snd] in E. subst y'.
+        apply in_combine_r in J. apply Bi in J.
+        assert (voff <= x)%N by (apply is_ge; unfold is; apply in_or_app; left; exact I). lia.
+      - intros x y I.
+        assert (NIy : ~ In y is) by (apply LOW; apply Bi; eapply in_combine_r; eauto).
+        unfold a2. apply vmem_false in NIy. rewrite NIy.
+        destruct (combine_mid ii fins ins x y len_ii Lin I) as (f & J1 & J2).
+        rewrite (TWin f x).
+        + symmetry. apply Vin. exact J2.
+        + unfold ps, fs, is. apply in_combine_app_l; [symmetry; apply len_ii|]. apply in_combine_swap. exact J1. }
+    (* the summary side: renamed to the internal names *)
+    assert (G2 : genv (e_rename (e_project sum fs) fs is) tw).
+    { set (sP := fun k : var => if vmem k fs then s1 k else tw k).
+      assert (GP : genv (e_project sum fs) sP).
+      { apply (e_project_sound _ _ s1); auto. intros k I. unfold sP. apply vmem_spec in I. rewrite I. reflexivity. }
+      assert (TOP : forall k, In k is -> is_top (e_at (e_project sum fs) k) = true).
+      { intros k I. apply (e_project_at_other sum fs k s1 Gs).
+        intros J. apply Bf in J. apply is_ge in I. lia. }
+      pose proof (e_rename_sound (e_project sum fs) fs is sP (map tw fs) GP is_nodup len_is TOP) as R.
+      eapply genv_ext; [exact R|].
+      intros k. symmetry. fold ps.
+      replace (map tw fs) with (map tw (map fst ps)) by (rewrite MF; reflexivity).
+      rewrite (rename_store_spec tw).
+      - rewrite MF, MS. destruct (vmem k fs || vmem k is) eqn:M; auto.
+        apply orb_false_iff in M. destruct M as [M _]. unfold sP. rewrite M. reflexivity.
+      - rewrite MF. exact ND.
+      - rewrite MF, MS. intros x y I J E. subst y. apply Bf in I. apply is_ge in J. lia.
+      - intros x y I. unfold sP.
+        assert (V : vmem x fs = true) by (apply vmem_spec; unfold ps in I; eapply in_combine_l; eauto).
+        rewrite V. symmetry. apply TWin. exact I. }
+    (* outputs, then the internal names are forgotten *)
+    set (psO := combine outs io).
+    assert (S3 : forall k, aseq psO tw k = if vmem k (map fst psO) then b k else tw k).
+    { apply aseq_spec.
+      - intros x y I J. apply in_combine_l in I. apply Bo in I.
+        apply in_map_iff in J. destruct J as ([x' y'] & E & J). cbn [snd] in E. subst y'.
+        apply in_combine_r in J.
+        assert (voff <= x)%N by (apply is_ge; unfold is; apply in_or_app; right; exact J). lia.
+      - intros x y I.
+        destruct (combine_mid outs fouts io x y (eq_sym Lout) (eq_sym len_io) I) as (f & J1 & J2).
+        rewrite (TWin f y).
+        + symmetry. apply Vout. exact J1.
+        + unfold ps, fs, is. apply in_combine_app_r; [symmetry; apply len_ii|exact J2]. }
+    apply (d_forget_sound _ _ (aseq psO tw)).
+    { apply assign_list_sound. apply e_meet_sound; auto. }
+    intros k NI. rewrite S3.
+    destruct (vmem k (map fst psO)) eqn:W; auto.
+    rewrite TWout by exact NI. apply Fr.
+    intros I. apply vmem_false in W. apply W. unfold psO. rewrite map_fst_combine; auto.
+    rewrite len_io. symmetry. exact Lout.
+  Qed.
+End ReuseSound.
